@@ -33,7 +33,9 @@ const HAND: &[&str] = &[
 /// structural key identity: kind, scalar text, tag class (by tag text), children; style/anchors ignored
 fn same_key(a: &Node, b: &Node) -> bool {
     match (a, b) {
-        (Node::Scalar { text: t1, tag: g1, .. }, Node::Scalar { text: t2, tag: g2, .. }) => t1 == t2 && tag_class(g1) == tag_class(g2),
+        (Node::Scalar { text: t1, tag: g1, sty: s1, anchor: a1 }, Node::Scalar { text: t2, tag: g2, sty: s2, anchor: a2 }) => {
+            docgen::event_text(t1, *s1, g1, a1) == docgen::event_text(t2, *s2, g2, a2) && tag_class(g1) == tag_class(g2)
+        }
         (Node::Seq { items: i1, .. }, Node::Seq { items: i2, .. }) => i1.len() == i2.len() && i1.iter().zip(i2).all(|(x, y)| same_key(x, y)),
         (Node::Map { entries: e1, .. }, Node::Map { entries: e2, .. }) => {
             e1.len() == e2.len() && e1.iter().zip(e2).all(|((k1, v1), (k2, v2))| same_key(k1, k2) && same_key(v1, v2))
@@ -75,10 +77,13 @@ fn dedup_first(n: &Node) -> Node {
     match n {
         Node::Map { entries, flow, anchor } => {
             let mut out: Vec<(Node, Node)> = Vec::new();
+            let mut seen: Vec<&Node> = Vec::new();
             for (k, v) in entries {
-                if out.iter().any(|(k0, _)| same_key(k0, k)) {
+                // keys are compared as written (the fingerprint is taken before the key is read)
+                if seen.iter().any(|k0| same_key(k0, k)) {
                     continue;
                 }
+                seen.push(k);
                 out.push((dedup_first(k), dedup_first(v)));
             }
             Node::Map { entries: out, flow: *flow, anchor: anchor.clone() }
@@ -157,6 +162,14 @@ pub fn run(ctx: &mut Ctx) {
         // S (generated documents without aliases only: the reference works on the expanded tree)
         let Some(n) = node else { continue };
         let Some(e) = docgen::expand(n) else { continue };
+        if docgen::has_anchored_empty_plain(n) {
+            ctx.count("anchored_empty_plain_skipped_by_oracle");
+            continue;
+        }
+        if docgen::has_explicit_empty_key(&e) {
+            ctx.count("explicit_empty_key_form_skipped_by_oracle");
+            continue;
+        }
         if docgen::has_merge_key(&e) {
             ctx.count("doc_with_merge_key_skipped_by_oracle");
             continue;
